@@ -17,6 +17,8 @@ Line-protocol driver for C16.
     the real ComputePatches ran ungated under the Go scheduler; reply: spec=<patches> order=<0|1>
 (a'') pstrat <grouped> <vulns> <ranks> <table> <universe> <tag>     (harness/cmd/c16gen/strat.go: the real relax / override strategies)
     table = task=E | task=<patch>: every attempt of the closure run in isolation; reply: spec=<patches> order=<0|1>
+(b') cnc <eco n|m|p> <start s|t> <ops>     (harness/cmd/c16gen/cnc.go: CombinedNativeClient shared by 2..4 goroutines)
+    reply: same=1   (C16_oncecell; the values are judged against the sequential run the generator performs)
 (b) cache <keys> <acts>
       keys = k,k,…   key of caller 0,1,…          acts = L<t> | P<t>:<v|err> | S<k=v;…|-> | G   (comma separated)
     reply: ret=<ok<v>|err|stuck,…> f=<nfetch 0>,<nfetch 1> cls=<r|w|f per L> maps=<k=v;…/…>
@@ -250,6 +252,9 @@ def handle (line : String) : String :=
   | ["pfree", g, vs, rq, tb, _] => handleFree g vs rq tb
   | ["pstrat", g, vs, rk, tb, _, _] => handleStrat g vs rk tb
   | ["cache", ks, as] => handleCache ks as
+  | ["cnc", eco, st, _] =>
+    -- CombinedNativeClient (Model/OnceCell.lean, C16_oncecell): every caller of the ecosystem ends up with the one client
+    if (eco = "n" || eco = "m" || eco = "p") && (st = "s" || st = "t") then "same=1" else "bad-op"
   | _ => "bad-op"
 
 def main : IO Unit := serve handle
